@@ -62,7 +62,7 @@ def finish(run, events, tag, tier):
         e = events[i]
         c = e["ctx"]
         run.fail({"kind": "trace", "event": e},
-                 "%s event (%s) rejected: k=%s flags=%s/%s contigs=%s" % (e["ev"], e.get("via", "lib"), c.get("k", c.get("table", {}).get("k")),
+                 "%s event (%s) rejected: k=%s flags=%s/%s contigs=%s" % (e["ev"], e.get("via", "lib"), c.get("k", (c.get("table") or {}).get("k")),
                                                                           c.get("ambig_mask"), c.get("repeat_mask"), [len(x) for x in c["contigs"]]))
 
 
@@ -85,6 +85,9 @@ def replay(run, path):
 def redo(e, keep_vcf=False):
     import os, skacli
     c = e["ctx"]
+    if e["ev"] == "aln":
+        return vlib.skav("exec", [{"op": "aln", "k": c["k"], "contigs": c["contigs"], "repeats": c["repeats"],
+                                   "mask_ambig": c["mask_ambig"], "writes": c["writes"], "ctx": c}])
     sb = skacli.Sandbox("mapr")
     try:
         contigs = [bytes(x).decode() for x in c["contigs"]]
